@@ -40,6 +40,9 @@ VALID_SMALL = [
     '#if (-9223372036854775807L - 1) % -1 == 0 && (-9223372036854775807L - 1) / -1 != 1\nint m4 = 1 << 31 >> 31, m5 = -1 >> 70, m6 = 1L << 63;\n#endif\n',
     'int sw(long x, unsigned long u, int i) { switch (x) { case 2147483648: return 1; case 4294967295: return 2; case -2147483649: return 3; case 0x7fffffffffffffff: return 4; case -9223372036854775807L - 1: return 10; }\n'
     '  switch (u) { case 0xffffffff: return 5; case 0x80000000: return 6; case 18446744073709551615UL: return 7; case 2147483649 ... 2147483651: return 11; }\n  switch (i) { case -2147483647 - 1: return 8; case 2147483647: return 9; } return 0; }\n',
+    # groups that are skipped are not evaluated: #elif after a taken group, directives nested in a skipped group (6.10.1p6)
+    '#if 1\nint pa;\n#elif 1 / 0\n#elif NOFN(3) + (\n#elif X X\n#else\n#error never\n#endif\n#if 0\n#if 1 / 0\n#elif (\n#endif\n#include <no/such/header.h>\n#else\nint pb;\n#endif\n'
+    '#ifndef PA_UNDEF\n#define PA_UNDEF\nint pc;\n#elif defined(\n#elif 1 % 0\n#endif\n#ifdef PA_UNDEF\nint pd;\n#elif PA_UNDEF(\n#endif\nint pe = 0 ? 1 / 0 : 2;\n',
     'int va(int n, ...) { __builtin_va_list ap; return n; }\n'[:0] + 'long f2(long a, long double b, float c) { long double r = a + b * c; return r > 0 ? (long)r : -(long)r; }\n',
 ]
 
